@@ -75,6 +75,12 @@ type World struct {
 	M      *Model   `json:"model"`
 	Tuples []Tuple  `json:"tuples"`
 	U      Universe `json:"universe"`
+	// Contextual lists the members of Tuples that are handed to the request as contextual tuples instead
+	// of being stored. Alt (shadow worlds only) is the world under the other reading of a contextual
+	// tuple that has the key of a stored tuple (the contextual tuple REPLACES the stored one; Tuples
+	// itself is the union reading).
+	Contextual []Tuple `json:"contextual,omitempty"`
+	Alt        *World  `json:"-"`
 
 	cache map[string]map[string]TV
 	order [][]string
